@@ -1,4 +1,4 @@
-"""Kernel K16 (property C08): CodeBuilder.is_field_nullable -- the predicate that decides which fields
+"""Kernel K17 (property C08): CodeBuilder.is_field_nullable -- the predicate that decides which fields
 get the `if value is not None` shape and are therefore subject to omit_none.
 
 Translated on every run.  Shape accepted (anything else fails closed):
@@ -11,7 +11,7 @@ Translated on every run.  Shape accepted (anything else fails closed):
     return <boolean expression>
 
 The loop becomes PyK_c08.k_iter with fuel = 1 + nesting depth of the type term (every accepted
-rebinding must take a component of the value; the theorem K16_nullable fails if that is not so).
+rebinding must take a component of the value; the theorem K17_nullable fails if that is not so).
 Abstractions (types are encoded as kernel values, see PyK_c08.v):
   is_annotated(t) / is_final(t) / is_optional(t, ...) / is_type_var_any(self.get_real_type(fname, t))
   -> tag tests; get_type_origin(t) -> ty_origin; get_args(t) -> ty_args;
@@ -25,7 +25,7 @@ import os
 
 from py2gallina import HEADER, FnTranslator, Kernel, Unsupported, find_function
 
-NAME = "K16"
+NAME = "K17"
 REPO = os.environ.get("VERIF_REPO", "/repo")
 
 EXPECTED_IS_OPTIONAL = '''def is_optional(typ: Type, resolved_type_params: Optional[dict[Type, Type]]=None) -> bool:
@@ -42,7 +42,7 @@ EXPECTED_IS_OPTIONAL = '''def is_optional(typ: Type, resolved_type_params: Optio
     return False'''
 
 
-class K16Translator(FnTranslator):
+class K17Translator(FnTranslator):
     def expr(self, e):
         key = ast.unparse(e)
         if key == "typing.Any":
@@ -102,7 +102,7 @@ def gen() -> str:
     if not (isinstance(loop.test, ast.Constant) and loop.test.value is True) or loop.orelse or len(loop.body) != 1:
         raise Unsupported("loop shape")
     k = Kernel(func="is_field_nullable", coq_name="is_field_nullable", params=["a_default", "v_ftype"])
-    tr = K16Translator(k, module)
+    tr = K17Translator(k, module)
     tr.locals.add("ftype")
     # the if / elif chain: every branch rebinds ftype, the final else breaks
     node = loop.body[0]
